@@ -37,6 +37,23 @@ PROPS = {
         technique="Lean 4 proof parametric in a codec law (reusing the C07 refinement lemmas) + differential correspondence through the real codecs",
         explanation="partial: codec law is a hypothesis; everything Set itself contributes is proved",
     ),
+    "C19": dict(
+        title="gencommon: interface rendered from FindInterface compiles and fits",
+        lean_modules=["Properties.C19"],
+        harness=[dict(bin="h-gencommon")],
+        trusted=[GO_TRUST % "h-gencommon",
+                 "Go's type checker / go build accepting the rendered interface and `var _ Rendered = (*Original)(nil)` (observed on every generated module, not proved)",
+                 "go/types method sets (compared with the Lean selector rule GoPromotes on every generated struct)",
+                 "golang.org/x/tools/go/packages loading the generated module; strconv.FormatInt = Nat.toDigits 10 on non-negative ints"],
+        assumptions=["non-blank parameter and result names of one signature are pairwise distinct (Go spec; hypothesis of names_distinct / user_names_kept)",
+                     "embedding graphs are finite trees (no cyclic embedding through pointers) and method names do not clash with field names",
+                     "type forms are those of the quantifier; chan / struct / interface literals, packages the target file does not import and three embedding levels run in the out-of-domain stream only",
+                     "an unused active import is pruned by goimports before compiling (GetActive is cumulative per ImportHandler)"],
+        level_text="Machine-checked Lean 4 theorems (kernel-only axioms) over a model that mirrors gencommon statement by statement: (a) getSafeParamName/ensureNames/ensureParamNames - for EVERY signature the resulting parameter and result names are pairwise distinct, valid identifiers, and user-chosen names are kept; (b) namedTypeToInterface's private filter and embedded-method merge over embedding trees of any depth - the rendered method set is exactly the recursive reading of the property text, every rendered method is promoted by Go's selector rule, and on trees two levels deep it is exactly the literal property text; (c) ExtractTypeRef/addNamed - every rendered type reference denotes the identical type under the active imports when their aliases are distinct, and every needed import is active under the alias used. PARTIAL: acceptance of the rendered file by the Go compiler and `implemented by the original type` are observed (go build of every generated module), not proved. Tied to /repo by differential execution on generated Go modules (all four option sets per struct).",
+        level_note="Trusted: Lean kernel + propext/Quot.sound/Classical.choice; the Go harness (module generator, go/packages, go build) and the Lean driver; Go's type checker for the compile/implements clause. Legacy algorithms are kept as ...Legacy with legacy_*_violates witnesses; the model mirrors the repaired code (fix-C19.diff).",
+        technique="Lean 4 proof (invariant over the name-generation loop, mutual structural induction over embedding trees and type terms) + differential correspondence on generated programs + go build of the rendered interfaces",
+        explanation="partial: compiler acceptance is observed, not proved; naming, merge and type-reference theorems are for all signatures / trees / type terms",
+    ),
 }
 
 # properties not claimed, with the reason (kept current; see DESIGN.md)
